@@ -1,5 +1,5 @@
 (* ExnProofs.v — proofs about the exception machine of Exn.v (property C07). *)
-From Coq Require Import List Arith Bool Lia String.
+From Coq Require Import String List Arith Bool Lia.
 From CelloV Require Import Generated Exn.
 Import ListNotations.
 
@@ -161,7 +161,7 @@ Lemma whole_program : forall p, nesting p <= exc_max_depth ->
   r = match r0 with RNormal => MNormal | RRaised k m => MDied (Some k) m end.
 Proof.
   intros p Hb.
-  pose proof (machine_refines_structured p st_init) as H. cbn [depth st_init bufs length plus] in H.
+  pose proof (machine_refines_structured p st_init) as H. cbn [depth st_init bufs length Nat.add] in H.
   specialize (H Hb).
   destruct (mach p st_init) as [[tr r] st'].
   change (depth st_init) with 0 in H.
@@ -217,3 +217,195 @@ Lemma unrepaired_refuted_dies :
   exists p, nesting p <= exc_max_depth /\ snd (ref_run 0 p) = RNormal /\
     snd (fst (mrun exc_max_depth false p st_init)) = MDied (Some 0) 5.
 Proof. exists d3_witness_dies. split; [apply Nat.leb_le; vm_compute; reflexivity | split; vm_compute; reflexivity]. Qed.
+
+(* ------------------------------------------------------------------ the structured semantics, read declaratively *)
+
+Lemma matches_spec : forall fs k, matches fs k = true <-> (fs = [] \/ In k fs).
+Proof.
+  intros fs k. unfold matches. destruct fs as [|f fs'].
+  - split; auto.
+  - rewrite existsb_exists. split.
+    + intros (x & Hin & Heq). apply Nat.eqb_eq in Heq. subst x. now right.
+    + intros [H|H]; [discriminate|]. exists k. split; [exact H | apply Nat.eqb_refl].
+Qed.
+
+Lemma matches_false_spec : forall fs k, matches fs k = false <-> (fs <> [] /\ ~ In k fs).
+Proof.
+  intros fs k. split.
+  - intros H. split.
+    + intros ->. discriminate.
+    + intros Hin. assert (matches fs k = true) by (apply matches_spec; now right). congruence.
+  - intros (Hne & Hnin). destruct (matches fs k) eqn:E; [|reflexivity].
+    apply matches_spec in E. destruct E; contradiction.
+Qed.
+
+Lemma ref_run_eval : forall p d, eval d p (fst (ref_run d p)) (snd (ref_run d p)).
+Proof.
+  induction p as [ | n | p IHp q IHq | k m | b IHb fs h IHh | p IHp ]; intros d; cbn [ref_run].
+  - constructor.
+  - constructor.
+  - specialize (IHp d). specialize (IHq d).
+    destruct (ref_run d p) as [t1 [|k m]]; cbn [fst snd] in *.
+    + destruct (ref_run d q) as [t2 r2]; cbn [fst snd] in *. now apply EvSeqNormal.
+    + now apply EvSeqRaised.
+  - constructor.
+  - specialize (IHb (S d)). specialize (IHh d).
+    destruct (ref_run (S d) b) as [t1 [|k m]]; cbn [fst snd] in *.
+    + now apply EvTryNormal.
+    + destruct (matches fs k) eqn:Hm.
+      * destruct (ref_run d h) as [t2 r2]; cbn [fst snd] in *.
+        apply EvTryHandled; [exact IHb | now apply matches_spec | exact IHh].
+      * apply matches_false_spec in Hm. destruct Hm. now apply EvTryPassed.
+  - constructor. apply IHp.
+Qed.
+
+Lemma eval_ref_run : forall d p t r, eval d p t r -> ref_run d p = (t, r).
+Proof.
+  induction 1; cbn [ref_run]; try reflexivity.
+  - now rewrite IHeval1, IHeval2.
+  - now rewrite IHeval.
+  - exact IHeval.
+  - now rewrite IHeval.
+  - rewrite IHeval1. assert (Hm : matches fs k = true) by now apply matches_spec.
+    now rewrite Hm, IHeval2.
+  - rewrite IHeval. assert (Hm : matches fs k = false) by now apply matches_false_spec.
+    now rewrite Hm.
+Qed.
+
+Lemma eval_iff_ref_run : forall d p t r, eval d p t r <-> ref_run d p = (t, r).
+Proof.
+  intros d p t r. split; [apply eval_ref_run|].
+  intros H. pose proof (ref_run_eval p d) as E. now rewrite H in E.
+Qed.
+
+(* the machine against the relation *)
+Lemma machine_follows_eval : forall p st t r0,
+  depth st + nesting p <= exc_max_depth ->
+  eval (depth st) p t r0 ->
+  let '(tr, r, st') := mach p st in
+  tr = t /\ depth st' = depth st /\
+  match r0 with
+  | RNormal => r = MNormal
+  | RRaised k m => obj st' = Some k /\ msg st' = m /\
+                   match bufs st with [] => r = MDied (Some k) m | b :: _ => r = MJump b end
+  end.
+Proof.
+  intros p st t r0 Hb He. apply eval_ref_run in He.
+  pose proof (machine_refines_structured p st Hb) as H.
+  destruct (mach p st) as [[tr r] st']. rewrite He in H.
+  destruct H as (-> & Hd & _ & Hres). split; [reflexivity|]. split; [exact Hd|].
+  destruct r0; [apply Hres | exact Hres].
+Qed.
+
+(* A try block enters its handler exactly when its body lets an exception escape that its filter
+   admits; the handler is then entered once, with that exception bound. *)
+Lemma handler_runs_iff : forall d b fs h t r,
+  eval d (PTry b fs h) t r ->
+  forall t1 r1, eval (S d) b t1 r1 ->
+  ((exists k m, r1 = RRaised k m /\ (fs = [] \/ In k fs)) <->
+   (exists k m t2, t = t1 ++ EHandler k m d :: t2)) /\
+  (forall k m t2, t = t1 ++ EHandler k m d :: t2 -> r1 = RRaised k m /\ exists r2, eval d h t2 r2 /\ r = r2).
+Proof.
+  intros d b fs h t r He t1 r1 Hb.
+  apply eval_ref_run in He. apply eval_ref_run in Hb. cbn [ref_run] in He. rewrite Hb in He.
+  assert (Hnil : forall (l : list event) x l', l <> l ++ x :: l').
+  { intros l x l' E. apply (f_equal (@length event)) in E. rewrite app_length in E. cbn in E. lia. }
+  destruct r1 as [|k m].
+  - inversion He; subst. split.
+    + split; [intros (k & m & Hk & _); discriminate | intros (k & m & t2 & E); now apply Hnil in E].
+    + intros k m t2 E. now apply Hnil in E.
+  - destruct (matches fs k) eqn:Hm.
+    + destruct (ref_run d h) as [t2 r2] eqn:Rh. inversion He; subst. split.
+      * split; [intros _; now exists k, m, t2 | intros _; exists k, m; split; [reflexivity | now apply matches_spec]].
+      * intros k' m' t2' E. apply app_inv_head in E. inversion E; subst.
+        split; [reflexivity|]. exists r. split; [now apply eval_iff_ref_run | reflexivity].
+    + inversion He; subst. apply matches_false_spec in Hm. destruct Hm as (Hne & Hnin). split.
+      * split.
+        -- intros (k' & m' & Hk & [Hf|Hin]); inversion Hk; subst; contradiction.
+        -- intros (k' & m' & t2 & E). now apply Hnil in E.
+      * intros k' m' t2 E. now apply Hnil in E.
+Qed.
+
+(* A non-matching exception continues to the nearest enclosing matching handler: wrap a raising
+   program in blocks that do not admit the exception (pre), then one that does, then anything. *)
+Lemma chain_app : forall l1 l2 p, chain (l1 ++ l2) p = chain l2 (chain l1 p).
+Proof. induction l1 as [|[fs h] l1 IH]; intros l2 p; cbn; [reflexivity | apply IH]. Qed.
+
+Lemma passes_through : forall pre p d t1 k m,
+  ref_run (length pre + d) p = (t1, RRaised k m) ->
+  Forall (fun lv => matches (fst lv) k = false) pre ->
+  ref_run d (chain pre p) = (t1, RRaised k m).
+Proof.
+  induction pre as [|[fs h] pre IH]; intros p d t1 k m Hp Hall; cbn [chain].
+  - exact Hp.
+  - inversion Hall as [|x l Hx Hl]; subst. cbn [fst] in Hx.
+    apply IH; [|exact Hl].
+    cbn [ref_run]. cbn [length Nat.add] in Hp. rewrite Hp, Hx. reflexivity.
+Qed.
+
+Lemma nearest_matching_handler : forall pre fs h p d t1 k m,
+  ref_run (S (length pre + d)) p = (t1, RRaised k m) ->
+  Forall (fun lv => matches (fst lv) k = false) pre ->
+  matches fs k = true ->
+  ref_run d (chain (pre ++ [(fs, h)]) p) =
+    let '(t2, r2) := ref_run d h in (t1 ++ EHandler k m d :: t2, r2).
+Proof.
+  intros pre fs h p d t1 k m Hp Hall Hm.
+  rewrite chain_app. cbn [chain ref_run].
+  rewrite (passes_through pre p (S d) t1 k m); [| now rewrite <- plus_n_Sm | exact Hall].
+  now rewrite Hm.
+Qed.
+
+Lemma nobody_matches : forall pre p t1 k m,
+  ref_run (length pre) p = (t1, RRaised k m) ->
+  Forall (fun lv => matches (fst lv) k = false) pre ->
+  ref_run 0 (chain pre p) = (t1, RRaised k m).
+Proof. intros. apply passes_through; [now rewrite Nat.add_0_r | assumption]. Qed.
+
+Lemma nesting_chain : forall levels p,
+  nesting (chain levels p) <=
+  length levels + Nat.max (nesting p) (fold_right (fun lv a => Nat.max (nesting (snd lv)) a) 0 levels).
+Proof.
+  induction levels as [|[fs h] rest IH]; intros p; cbn [chain length fold_right snd].
+  - lia.
+  - specialize (IH (PTry p fs h)). cbn [nesting] in IH. lia.
+Qed.
+
+(* the two chain facts for the machine *)
+Lemma machine_nearest_matching_handler : forall pre fs h p st t1 k m,
+  depth st + nesting (chain (pre ++ [(fs, h)]) p) <= exc_max_depth ->
+  ref_run (S (length pre + depth st)) p = (t1, RRaised k m) ->
+  Forall (fun lv => fst lv <> [] /\ ~ In k (fst lv)) pre ->
+  (fs = [] \/ In k fs) ->
+  let '(tr, r, st') := mach (chain (pre ++ [(fs, h)]) p) st in
+  let '(t2, r2) := ref_run (depth st) h in
+  tr = t1 ++ EHandler k m (depth st) :: t2 /\ depth st' = depth st /\
+  (r2 = RNormal -> r = MNormal).
+Proof.
+  intros pre fs h p st t1 k m Hb Hp Hall Hm.
+  pose proof (machine_refines_structured _ st Hb) as H.
+  destruct (mach (chain (pre ++ [(fs, h)]) p) st) as [[tr r] st'].
+  rewrite (nearest_matching_handler pre fs h p (depth st) t1 k m) in H.
+  - destruct (ref_run (depth st) h) as [t2 r2].
+    destruct H as (-> & Hd & _ & Hres). split; [reflexivity|]. split; [exact Hd|].
+    intros ->. apply Hres.
+  - exact Hp.
+  - eapply Forall_impl; [|exact Hall]. intros lv Hlv. now apply matches_false_spec.
+  - now apply matches_spec.
+Qed.
+
+Lemma machine_nobody_matches : forall pre p t1 k m,
+  nesting (chain pre p) <= exc_max_depth ->
+  ref_run (length pre) p = (t1, RRaised k m) ->
+  Forall (fun lv => fst lv <> [] /\ ~ In k (fst lv)) pre ->
+  let '(tr, r, st') := mach (chain pre p) st_init in
+  tr = t1 /\ r = MDied (Some k) m /\ depth st' = 0.
+Proof.
+  intros pre p t1 k m Hb Hp Hall.
+  pose proof (whole_program _ Hb) as H.
+  destruct (mach (chain pre p) st_init) as [[tr r] st'].
+  rewrite (nobody_matches pre p t1 k m) in H.
+  - destruct H as (-> & Hd & ->). auto.
+  - exact Hp.
+  - eapply Forall_impl; [|exact Hall]. intros lv Hlv. now apply matches_false_spec.
+Qed.
